@@ -48,7 +48,10 @@ def h(sym, n, ngo, auxes, symticks, end, parent, suspended):
             pre["x%d" % j] = 0
         plan.append(pre)
     controls += [RUN] * symticks
-    if end is not None:
+    if end == "restart":      # stop, then start again and run: outlines must be intact after an exit-all
+        controls += [STOP, START, RUN]
+        plan = plan + [None] * symticks + [{"*": 1}, {"*": 1}, None]
+    elif end is not None:
         controls.append(end)
     text, out = flostep.run(sym, prog, controls, plan=plan)
     specs = {fs.name: fs for fs in prog.framers}
@@ -132,13 +135,15 @@ def h_exen(sym, n):
 def obligations(tier):
     out = []
     if tier == "quick":
-        cfgs = [(3, 1, (), 1, STOP, False), (3, 1, ("plain",), 1, ABORT, False), (3, 1, ("cond",), 1, STOP, True)]
+        cfgs = [(3, 1, (), 1, STOP, False), (3, 1, ("plain",), 1, ABORT, False), (3, 1, ("cond",), 1, STOP, True),
+                (3, 1, (), 1, "restart", False)]
         exen = [3, 4]
     else:
         cfgs = [(3, 2, (), 2, STOP, False), (4, 1, (), 1, ABORT, False), (4, 2, (), 1, None, False),
                 (3, 1, ("plain",), 2, STOP, False), (4, 1, ("plain",), 1, ABORT, False),
                 (3, 1, ("cond",), 2, STOP, True), (3, 1, ("cond",), 2, ABORT, False), (4, 1, ("cond",), 1, STOP, True),
-                (3, 1, ("plain", "cond"), 1, STOP, True), (3, 1, ("plain", "plain"), 1, STOP, False)]
+                (3, 1, ("plain", "cond"), 1, STOP, True), (3, 1, ("plain", "plain"), 1, STOP, False),
+                (3, 1, (), 1, "restart", False), (4, 1, (), 1, "restart", False), (3, 1, ("plain",), 1, "restart", False)]
         exen = [3, 4, 5]
     for n in exen:
         out.append(Ob("exen/N%d" % n, h_exen, dict(n=n), budget=600, bounds=dict(frames=n, pairs="all ordered (active, target)")))
@@ -147,7 +152,7 @@ def obligations(tier):
         for parent in flostep.all_forests(n):
             out.append(Ob("step/N%d-go%d-%s-%s-sym%d-%s/%s" % (
                               n, ngo, "+".join(auxes) or "noaux", "suspended" if suspended else "fresh", symticks,
-                              {None: "run", 0: "stop", 3: "abort"}[end], "".join("r" if q < 0 else str(q) for q in parent)),
+                              {None: "run", 0: "stop", 3: "abort", "restart": "restart"}[end], "".join("r" if q < 0 else str(q) for q in parent)),
                           h, dict(n=n, ngo=ngo, auxes=auxes, symticks=symticks, end=end, parent=parent, suspended=suspended),
                           budget=400 if tier == "quick" else 1200, covers=covers,
                           bounds=dict(frames=n, forest=parent, first="any", transitions=ngo, auxes=list(auxes),
